@@ -248,9 +248,9 @@ path:                 /* at this point, p must point to an absolute path */
 
     if (p < q) {
       COAP_SET_STR(&uri->path, q - p, p);
-      p = q;
     }
   }
+  p = q;
 
   /* Uri_Query */
   if (len && *p == '?') {
